@@ -19,4 +19,49 @@ def QInv (q : Queue) : Prop :=
 
 def Inv (s : State) : Prop := ∀ q ∈ s.queues, QInv q
 
+/-! ### the life of ONE allocation as an automaton -/
+
+/-- inputs of the per-allocation automaton: a `sync_allocation_status` call, or a status error -/
+inductive AIn
+  | sync (r : SyncReason)
+  | err
+  deriving Repr, DecidableEq
+
+def allocStep (c : Consts) (t : Nat) (st : AState) : AIn → AState
+  | .sync r => (syncState t st r).st
+  | .err => (errState c st).1
+
+/-- state of an allocation of size `t` after the inputs `ins` (oldest first) -/
+def allocRun (c : Consts) (t : Nat) (st : AState) (ins : List AIn) : AState := ins.foldl (allocStep c t) st
+
+/-- the worker event an input carries for worker `w`: `some true` = connect, `some false` = loss -/
+def AIn.workerEv (w : Nat) : AIn → Option Bool
+  | .sync (.conn w') => if w' = w then some true else none
+  | .sync (.lost w' _) => if w' = w then some false else none
+  | _ => none
+
+/-- the LAST worker event for worker `w` among the inputs `ins` (oldest first) -/
+def lastEv (w : Nat) : List AIn → Option Bool
+  | [] => none
+  | i :: rest =>
+    match lastEv w rest with
+    | some b => some b
+    | none => i.workerEv w
+
+/-- which automaton inputs an event `e` may feed to allocation `a` -/
+def Allowed (e : Ev) (a : Nat) : AIn → Prop
+  | .sync (.conn w) => e = .workerConnected w a
+  | .sync (.lost w cr) => e = .workerLost w a cr
+  | .sync (.ext _) => ∃ reps, e = .refresh reps
+  | .err => ∃ reps, e = .refresh reps
+
+/-- The short F13 witness as a model run: `mask` is what `resume()` resets. -/
+def f13Run (mask : Nat) : List Out :=
+  let s0 := init ⟨10, 20, mask⟩ 1
+  let s1 := (step s0 (.addQueue ⟨1, 1, none⟩ (Limiter.new [0, 1000] 2 3) none)).st
+  let s2 := (step s1 (.tick 0 [1] (.ok [1] []) [.fail])).st
+  let s3 := (step s2 (.tick 1000 [1] (.ok [1] []) [.fail])).st     -- second failure: paused by the limit
+  let s4 := (step s3 (.resume 1)).st
+  (step s4 (.tick 5000 [1] (.ok [1] []) [.ok 1])).outs
+
 end HqModel.AutoAlloc
